@@ -9,7 +9,7 @@
    evictions removing an arbitrary key set (also the ones triggered inside a
    store), and restarts over the dirty directory (also in the middle of a
    store, leaving a partial temp file behind). *)
-From Reservoir Require Import Base.Prelude Base.Amap Model.Store Proofs.Store.
+From Reservoir Require Import Base.Prelude Base.Amap Model.Store Proofs.Store Model.Counters Proofs.Counters.
 
 (* The inductive invariant behind everything below holds initially and is
    preserved by every single action from every state satisfying it. *)
@@ -72,3 +72,19 @@ Example ex_dirty_restart :
   let s := run File 1000 [ABegin 0 10 1 []; AWrite 0 [1;2]; ACommit 0; ABegin 1 10 2 []; AWrite 1 [3]] in
   (dir_listing s, quiescent s) = ([(0, 2); (3, 1)], false).                 (* <hex1>.tmp with 1 byte is on disk *)
 Proof. vm_compute. reflexivity. Qed.
+
+(* The two size counters at the granularity of their individual updates: any number of concurrent
+   stores and removals, each moving the cache's byte counter first and the reported bytes_cached metric
+   second, interleaved in any way.  Whenever no update is half-way (quiescence), the reported metric
+   equals the byte counter. *)
+Theorem C12_metric_quiescent : forall l s',
+  crun false c_init l = Some s' -> quiescent_c s' = true -> c_metric s' = c_bytes s'.
+Proof. exact metric_quiescent. Qed.
+Print Assumptions C12_metric_quiescent.
+
+(* With the janitor overwriting the metric by the byte counter it reads (the code before the repair)
+   the claim is false: one cleanup cycle between the two halves of one store. *)
+Theorem C12_metric_quiescent_refuted_with_janitor_set :
+  exists l s', crun true c_init l = Some s' /\ quiescent_c s' = true /\ c_metric s' <> c_bytes s'.
+Proof. exact metric_quiescent_refuted_with_set. Qed.
+Print Assumptions C12_metric_quiescent_refuted_with_janitor_set.
